@@ -6,6 +6,7 @@ package file
 import (
 	"bytes"
 	"context"
+	"io"
 	"strings"
 	"time"
 
@@ -75,6 +76,54 @@ func VxC11FileWrite() {
 	vx.Assert("success-published-the-file", vx.FSExists(final) && !vx.FSFileDirty(final))
 	vx.Assert("success-only-after-directory-flush", !vx.FSDirDirty(c.LTXLevelDir(level)))
 	vx.Assert("info-describes-the-file", info != nil && info.Size == int64(len(data)) && info.CreatedAt.Equal(time.UnixMilli(1700000001000)))
+}
+
+// vxPiecewise hands a stream out in small pieces (a network body, the pipe of a
+// compaction) and may end the caller's context after one of them.
+type vxPiecewise struct {
+	r      io.Reader
+	piece  int
+	reads  int
+	after  int // end the context after this many reads (0 = never)
+	cancel context.CancelFunc
+}
+
+func (p *vxPiecewise) Read(b []byte) (int, error) {
+	if len(b) > p.piece {
+		b = b[:p.piece]
+	}
+	n, err := p.r.Read(b)
+	p.reads++
+	if p.after > 0 && p.reads == p.after {
+		p.cancel()
+	}
+	return n, err
+}
+
+// VxC03FileWriteStream: WriteLTXFile fed piece by piece while its context (a
+// request deadline, a shutdown) ends at an arbitrary point of the stream: whatever
+// it answers, a file under the final name is the whole stream, and success means
+// the whole stream is there.
+func VxC03FileWriteStream() {
+	root := vx.TempDir() + "/replica"
+	c := NewReplicaClient(root)
+	data := vxLTXBytes(2, 2, 2, 1700000001000, []uint32{1, 2}, 7)
+	final := c.LTXFilePath(0, 2, 2)
+	ctx, cancel := context.WithCancel(context.Background())
+	defer cancel()
+	src := &vxPiecewise{r: bytes.NewReader(data), piece: 300, after: vx.Choose("ctxEndsAfterRead", 0, 4), cancel: cancel}
+	info, err := c.WriteLTXFile(ctx, 0, 2, 2, src)
+	if vx.FSExists(final) {
+		vx.Assert("visible-file-is-the-whole-stream", vx.FSComplete(final) && bytes.Equal(vx.FSReadFile(final), data))
+	}
+	if err == nil {
+		vx.Assert("success-means-the-whole-stream-is-published", vx.FSExists(final) && info != nil && info.Size == int64(len(data)))
+	} else {
+		vx.Assert("refused-stream-leaves-no-temp-file", !vx.FSExists(final+".tmp"))
+	}
+	if src.after == 0 {
+		vx.Assert("uninterrupted-stream-is-accepted", err == nil)
+	}
 }
 
 // VxC03FileWrite: kill before every mutating operation of WriteLTXFile.
